@@ -4,10 +4,12 @@ import (
 	"encoding/json"
 	"fmt"
 	"os"
+	"os/exec"
 	"path/filepath"
 	"regexp"
 	"strings"
 	"sync"
+	"syscall"
 	"time"
 
 	"github.com/akrennmair/updog"
@@ -22,6 +24,7 @@ import (
 func init() {
 	register("C06", "fault_enumeration", runC06)
 	workers["c06-classify"] = workerC06Classify
+	workers["c06-path-reuse"] = workerC06PathReuse
 }
 
 // c06Spec is what the classification child needs: the probes with their expected answers and one row per distinct
@@ -83,6 +86,57 @@ func workerC06Classify(args []string) int {
 	r := vf.NewQuietRun("C06") // no scratch directory, no output: the verdict goes to the parent as JSON
 	cls := classifyOutput(r, "child", args[0], ps, spec.SchemaRows, nil)
 	out, _ := json.Marshal(map[string]any{"class": cls, "violations": r.TakeViolations()})
+	fmt.Println(string(out))
+	return 0
+}
+
+// workerC06PathReuse: the post-crash file appears at a path where THIS process has opened a complete index before (a
+// long-running reader whose index is rebuilt by another process that dies half-way). Anything the library remembers
+// per path must not make the partial file acceptable.
+// args: path spec-file complete-index updog-binary input-csv big(0|1) kill-at
+func workerC06PathReuse(args []string) int {
+	path, specFile, full, bin, in, big, killAt := args[0], args[1], args[2], args[3], args[4], args[5] == "1", args[6]
+	var spec c06Spec
+	if err := readSpec(specFile, &spec); err != nil {
+		fmt.Fprintln(os.Stderr, err)
+		return 3
+	}
+	var ps []probe
+	for i, q := range spec.Probes {
+		ps = append(ps, probe{id: fmt.Sprintf("p%d", i), e: q.E, gb: q.GB, a: q.Want})
+	}
+	if err := ix.CopyFile(full, path); err != nil {
+		fmt.Fprintln(os.Stderr, err)
+		return 3
+	}
+	// the complete index is opened, used and closed in every configuration, then removed
+	for _, mode := range ix.OpenModes {
+		idx, err := ix.Open(path, mode, updog.NewLRUCache(1<<20))
+		if err != nil {
+			fmt.Fprintln(os.Stderr, "complete index rejected:", err)
+			return 3
+		}
+		_, _ = runProbes(idx, ps[:min(5, len(ps))])
+		_ = idx.GetSchema()
+		idx.Close()
+	}
+	os.Remove(path)
+	cargs := []string{"create", "-o", path}
+	if big {
+		cargs = append(cargs, "-b")
+	}
+	cmd := exec.Command(bin, append(cargs, in)...)
+	cmd.Env = append(os.Environ(), "UPDOG_VERIF_KILL_AT="+killAt)
+	err := cmd.Run()
+	killed := false
+	if ee, ok := err.(*exec.ExitError); ok {
+		if ws, ok := ee.Sys().(syscall.WaitStatus); ok && ws.Signaled() && ws.Signal() == syscall.SIGKILL {
+			killed = true
+		}
+	}
+	r := vf.NewQuietRun("C06")
+	cls := classifyOutput(r, "child", path, ps, spec.SchemaRows, nil)
+	out, _ := json.Marshal(map[string]any{"class": cls, "violations": r.TakeViolations(), "killed": killed})
 	fmt.Println(string(out))
 	return 0
 }
@@ -205,7 +259,7 @@ func runC06(r *vf.Run) {
 	r.Rule("one evaluation = one post-crash state of an output file (a committed prefix materialised by the verif hook, the file left by the real CLI SIGKILLed at its n-th commit boundary, or the file left by the CLI killed by strace at an injected syscall) " +
 		"classified as absent / rejected with an error / accepted; an accepted file is probed against the completely written index; " +
 		"distinct_nontrivial = distinct (engine, writer, dataset, crash point) tuples")
-	r.Assume("a crash is the death of the process with the kernel surviving (no torn pages: bbolt's commit protocol and fsync behaviour are trusted)", "at most ~6 commits per run")
+	r.Assume("a crash is the death of the process with the kernel surviving (no torn pages: bbolt's commit protocol and fsync behaviour are trusted)", "up to ~35 commits per run")
 	c06Snapshots(r)
 	c06KillAt(r)
 	c06Strace(r)
@@ -235,9 +289,10 @@ func c06Datasets(r *vf.Run) []c06Data {
 		{"v2500", 2500, []int{2500}},
 		{"r1001", 1001, []int{7, 2}},
 		{"r3100", 3100, []int{13, 5}},
+		{"v8500", 8500, []int{8500}}, // nine and more batches of values: a writer that overlaps its batches only does so from some count on
 	}
 	if r.Thorough() {
-		ds = append(ds, c06Data{"v4100", 4100, []int{4100, 3}}, c06Data{"v2000", 2000, []int{1000, 1000}}, c06Data{"r2000", 2000, []int{3}}, c06Data{"r2001", 2001, []int{1500, 3}})
+		ds = append(ds, c06Data{"v4100", 4100, []int{4100, 3}}, c06Data{"v12500", 12500, []int{12500}}, c06Data{"v30500", 30500, []int{30500}}, c06Data{"v2000", 2000, []int{1000, 1000}}, c06Data{"r2000", 2000, []int{3}}, c06Data{"r2001", 2001, []int{1500, 3}})
 	}
 	return ds
 }
@@ -396,6 +451,52 @@ func c06KillAt(r *vf.Run) {
 				r.Count("cli_kills_"+mode, 1)
 				r.Distinct(kid)
 				os.Remove(out)
+				// the same crash at a path where the classifying process has opened the complete index before
+				if n <= len(points) && r.Want(kid+"/path-reuse") {
+					reuse := filepath.Join(dir, "reused.updog")
+					os.Remove(reuse)
+					bigArg := "0"
+					if big {
+						bigArg = "1"
+					}
+					pres := runChild(r, binPath("vcheck"), []string{"worker", "c06-path-reuse", reuse, c06SpecFile(r, d), full, binPath("updog.verif"), in, bigArg, fmt.Sprint(n)}, childOpts{Timeout: 5 * time.Minute})
+					r.Eval(1)
+					ctx := map[string]any{"engine": "cli-sigkill-at-commit, output path opened before by the classifying process", "mode": mode, "dataset": d.id, "killed_at": site}
+					var pout struct {
+						Class      string           `json:"class"`
+						Violations []map[string]any `json:"violations"`
+						Killed     bool             `json:"killed"`
+					}
+					switch {
+					case pres.TimedOut:
+						hangVerdict(r, kid+"/path-reuse", pres, ctx)
+					case pres.Code != 0 || json.Unmarshal([]byte(pres.Stdout), &pout) != nil:
+						if strings.Contains(pres.Stderr, "panic:") || strings.Contains(pres.Stderr, "fatal error:") || pres.Signaled {
+							ctx["stderr"] = tail(pres.Stderr, 4000)
+							r.Violation(kid+"/path-reuse", "open-or-query-crashes-on-post-crash-file", ctx)
+						} else {
+							r.Inconclusive(fmt.Sprintf("%s/path-reuse: child exit %d: %s", kid, pres.Code, tail(pres.Stderr, 300)))
+						}
+					case !pout.Killed:
+						r.Inconclusive(kid + "/path-reuse: the CLI was not killed")
+					default:
+						for _, v := range pout.Violations {
+							kind, _ := v["kind"].(string)
+							det, _ := v["detail"].(map[string]any)
+							if det == nil {
+								det = map[string]any{}
+							}
+							for k, x := range ctx {
+								det[k] = x
+							}
+							r.Violation(kid+"/path-reuse", kind, det)
+						}
+						r.Count("class_"+pout.Class, 1)
+						r.Count("post_crash_files_at_a_path_opened_before", 1)
+						r.Distinct(kid + "/path-reuse")
+					}
+					os.Remove(reuse)
+				}
 			}
 		}
 	}
